@@ -18,6 +18,6 @@ int main(int argc, char **argv) {
     Prog p = {meta[i][0], cc_tab[i], ref_tab[i]};
     if (explore(i, nodes, &p, meta[i][1], 0) >= 2) nontrivial++;
   }
-  printf("S runs=%ld judged=%ld silent=%ld odis=%ld paths=%ld budget=%ld nontrivial=%ld\n", n_runs, n_judged, n_silent, n_odis, n_paths, n_budget, nontrivial);
+  printf("S runs=%ld judged=%ld silent=%ld odis=%ld paths=%ld budget=%ld nontrivial=%ld undef=%ld\n", n_runs, n_judged, n_silent, n_odis, n_paths, n_budget, nontrivial, n_undef);
   return 0;
 }
